@@ -303,9 +303,15 @@ def c05_run(sc, results):
     nlab = {mid: len(pos) for mid, _, pos in sc.queries}
     for m, r in results.items():
         out.extend(seed_selection(sc, r["real"], m))
-    if "separate" in results and not results["separate"]["real"]["error"]:
-        r = results["separate"]
-        first = {int(x["QryContigID"]): x for x in r["rows"].get(0, [])}
+    # the first-pass file: the main file of 'separate', file _1 of 'all'
+    first_by_mode = {}
+    for fmode, ffile in (("separate", 0), ("all", 1)):
+        if fmode not in results or results[fmode]["real"]["error"]:
+            continue
+        r = results[fmode]
+        first = {int(x["QryContigID"]): x for x in r["rows"].get(ffile, [])}
+        first_by_mode[fmode] = first
+        tag = f"{fmode}/{ffile}"
         byq = {}
         for c in r["cands"]:
             if c["shift"] == 0 and c["n"] == nlab.get(c["qid"]):
@@ -321,14 +327,17 @@ def c05_run(sc, results):
             has_pairs = bool(best["row"].alignedPairs)
             rec = first.get(qid)
             if has_pairs != (rec is not None):
-                out.append((f"query {qid}: best candidate has pairs={has_pairs} but record present={rec is not None}", None, "best"))
+                out.append((f"query {qid}: best candidate has pairs={has_pairs} but record present={rec is not None} in the first-pass file ({tag})", None, "best"))
             elif rec is not None:
                 ps = [(p.reference.siteId, p.query.siteId) for p in best["row"].alignedPairs]
                 if rec["_pairs"] != ps or rec["Confidence"] != "{:.2f}".format(best["row"].confidence):
-                    out.append((f"query {qid}: the first-pass record is not the highest-confidence candidate", None, "best"))
+                    out.append((f"query {qid}: the first-pass record ({tag}) is not the highest-confidence candidate", None, "best"))
         for qid in first:
             if qid not in byq:
-                out.append((f"query {qid}: record without any candidate", None, "best"))
+                out.append((f"query {qid}: record in the first-pass file ({tag}) without any candidate", None, "best"))
+    if "separate" in first_by_mode:
+        r = results["separate"]
+        first = first_by_mode["separate"]
         if "best" in results and not results["best"]["real"]["error"]:
             ids_best = [int(x["QryContigID"]) for x in results["best"]["rows"].get(0, [])]
             want = sorted(set(first) | {int(x["QryContigID"]) for x in r["rows"].get(1, [])})
